@@ -128,6 +128,14 @@ def run(tier: str) -> Run:
             b = bad[rule].get(fname)
             rr.check(b is None, fname, lwhere, {'name': b[0], 'problem': b[1]} if b else {}, key=fname)
 
+    # ---- R7: a lookup does not depend on the lookups made before it --------------------------------
+    r7 = run.rule('R7', 'a lookup answers the same after any other lookup: two-lookup histories of ScatteringParams.for_isotope and '
+                        'Atom.for_isotope in one world (module-level tables, caches and iterators persist): first / middle / last rows, the same '
+                        'name twice, a refused name first', 2)
+    for cls_name, lfi7, n7, bad7 in lookup_histories(repo, tables):
+        r7.check(not bad7, f'{cls_name}.for_isotope', loc(lfi7), {'histories': n7, 'histories_with_another_answer': len(bad7), 'first': bad7[:1]},
+                 key=f'history:{cls_name}')
+
     r3b = run.rule('R3b', '_assemble_scalar: blank value -> None; variance = uncertainty**2 (0 stays 0); blank uncertainty -> no variance', 4)
     afi = private_helper(repo, 'atoms', '_assemble_scalar', ['value', 'std', 'unit'])  # else: decided per table row by R3 and R5
     cases = [(('1.5', '0.5', 'fm'), (1.5, 0.25, 'fm')), (('12.0', '0.0000000', 'Da'), (12.0, 0.0, 'Da')),
@@ -240,6 +248,65 @@ def run(tier: str) -> Run:
     r6.check(isinstance(v, SVar) and v.members.get('value') == 1.7982 and v.unit == Unit.named('angstrom'), 'reference_wavelength',
              loc(rfi), {'value': getattr(v, 'members', {}).get('value'), 'unit': repr(getattr(v, 'unit', None))}, key='reference')
     return run
+
+
+def lookup_histories(repo, tables):
+    """Two-lookup histories of the public table lookups in one world -> [(class name, function, histories, bad histories)]"""
+    out = []
+    for cls_name, fname in (('ScatteringParams', 'scattering_parameters.csv'), ('Atom', 'atomic_weights.csv')):
+        lfi7 = repo.func('atoms', f'{cls_name}.for_isotope')
+        keys7 = list(tables[fname])
+        names7 = [keys7[0], keys7[len(keys7) // 2], keys7[-1], 'no such nuclide']
+        if cls_name == 'Atom':
+            mass_keys = list(tables['atomic_masses.csv'])
+            names7 = [keys7[0], mass_keys[len(mass_keys) // 2], mass_keys[-1], 'no such nuclide']
+
+        def lookup7(i, name, lfi7=lfi7, cls_name=cls_name):
+            from sa.interp import RaiseSignal
+            try:
+                v = i.call_function(lfi7, [name], {})
+            except RaiseSignal as r_:
+                return ('raise', r_.exc_type)
+            if not isinstance(v, SObj):
+                return ('return', repr(v))
+            seen = []
+            for k_, a_ in sorted(v.attrs.items()):
+                seen.append((k_, scalar_of(a_) if isinstance(a_, SVar) or a_ is None else repr(a_)))
+            if cls_name == 'Atom':
+                for prop in ('atomic_weight', 'atomic_mass'):
+                    try:
+                        seen.append((prop, scalar_of(i.call_function(repo.func('atoms', f'Atom.{prop}'), [], {}, bound=v))))
+                    except RaiseSignal as r_:
+                        seen.append((prop, ('raise', r_.exc_type)))
+            return ('return', tuple(seen))
+        T.reset()
+        it7 = Interp(repo, AtomsModel(repo))
+        fresh7 = {n_: [o.value for o in it7.run_all(lambda i, n_=n_: lookup7(i, n_))] for n_ in names7}
+        bad7 = []
+        n7 = 0
+        for first in names7:
+            for second in names7:
+                n7 += 1
+                got = [o.value for o in it7.run_all(lambda i, first=first, second=second: (lookup7(i, first), i.end_of_call(), lookup7(i, second))[-1])]
+                if got != fresh7[second]:
+                    bad7.append({'history': [first, second], 'fresh': str(fresh7[second])[:160], 'after_the_first': str(got)[:160]})
+        out.append((cls_name, lfi7, n7, bad7))
+    return out
+
+
+def read_tables(repo):
+    """name -> row of the three bundled tables"""
+    tables = {}
+    for fname in FILES:
+        path = os.path.join(os.path.dirname(repo.module('atoms').path), fname)
+        with open(path, encoding='utf-8', newline='') as f:
+            lines = f.read().splitlines()
+        t = {}
+        for r in csv.reader(lines):
+            if r and not r[0].startswith('#'):
+                t.setdefault(r[0], r[1:])
+        tables[fname] = t
+    return tables
 
 
 class AtomsModel(Model):
